@@ -160,7 +160,7 @@ func c18parse(err error) string {
 			// (lines sorted: import-boss reports in map order)
 			ls := strings.Split(msg, "\n")
 			sort.Strings(ls)
-			return tag("?", atom(strings.Join(ls, "\n")))
+			return tag("?unclassified?", atom(strings.Join(ls, "\n")))
 		}
 	}
 	var fk []string
